@@ -78,6 +78,18 @@ class Sandbox(object):
             p = os.path.join(r, f)
             if not os.path.isdir(p):
                 open(p, 'wb').write(body)
+        # the working directory of every build: neither the requiring file's directory nor on the load path, and full of
+        # files named like everything a require can name (a relative load path entry is relative to the requiring file)
+        self.cwd = os.path.join(r, 'cwd')
+        for f in ('x.lua', 'lib.lua', 'init.lua', 'sub/x.lua', 'sub/lib.lua', 'sub/a.lua', 'lib/x.lua', 'lib/init.lua',
+                  'lib/lib.lua', 'x/init.lua', 'sub/lib/x.lua', 'sub/x/init.lua'):
+            p = os.path.join(self.cwd, f)
+            os.makedirs(os.path.dirname(p), exist_ok=True)
+            if not os.path.isdir(p) and not os.path.exists(p):
+                try:
+                    open(p, 'wb').write(b'cwd_canary=1\n')
+                except OSError:
+                    pass
         for base in (self.carts, self.carts2):
             for f in ('game/x.lua', 'shared/x.lua', 'x.lua', 'lib.lua'):
                 p = os.path.join(base, f)
@@ -183,6 +195,8 @@ def location_class(sb, rp):
         return 'prefix-sharing-sibling'
     if rel.startswith('abs' + os.sep):
         return 'absolute-path'
+    if rel.startswith('cwd' + os.sep):
+        return 'working-directory'
     if rel.startswith(os.path.join('home', '.lexaloffle', 'pico-8', 'carts2')):
         return 'carts-root-prefix-sibling'
     if rel.startswith(os.path.join('home', '.lexaloffle', 'pico-8', 'carts') + os.sep):
@@ -252,13 +266,18 @@ def check_require(sb, p, lp, res, form='paren'):
     home_old = os.environ.get('HOME')
     os.environ['HOME'] = sb.home
     try:
-        with OpenTracer(sb) as tr:
-            try:
-                rcode = tool.main(args)
-                err = None
-            except BaseException as e:
-                rcode = None
-                err = e
+        cwd0 = os.getcwd()
+        os.chdir(sb.cwd)
+        try:
+            with OpenTracer(sb) as tr:
+                try:
+                    rcode = tool.main(args)
+                    err = None
+                except BaseException as e:
+                    rcode = None
+                    err = e
+        finally:
+            os.chdir(cwd0)
     finally:
         os.environ.pop('PICO8_LUA_PATH', None)
         if env_old is not None:
@@ -304,11 +323,16 @@ def check_require_nested(sb, p, lp, res, form='paren'):
     home_old = os.environ.get('HOME')
     os.environ['HOME'] = sb.home
     try:
-        with OpenTracer(sb) as tr:
-            try:
-                tool.main(args)
-            except BaseException:
-                pass
+        cwd0 = os.getcwd()
+        os.chdir(sb.cwd)
+        try:
+            with OpenTracer(sb) as tr:
+                try:
+                    tool.main(args)
+                except BaseException:
+                    pass
+        finally:
+            os.chdir(cwd0)
     finally:
         if env_old is not None:
             os.environ['PICO8_LUA_PATH'] = env_old
